@@ -162,7 +162,10 @@ CHECKS["C11"] = dict(
          "scripts of <= 3(4) segments read back through stuffing), replays every enumerated script on the real HighLevelDecode, and generates per "
          "symbol a random script filling it, fault sets up to floor(check/2) codewords placed through the spec's spiral, and the module matrix. The "
          "harness decodes these directly and as rendered images (4 rotations, 2-5 px/module, clean and damaged); Trace_Aztec re-derives the matrix "
-         "and the damage from the spec and accepts only 'no error, text = script text'. Quick: 15 sizes; thorough: all 36.",
+         "and the damage from the spec and accepts only 'no error, text = script text'. Quick: 15 sizes; thorough: all 36. "
+         "One Decoder and one AztecReader serve the whole run (equal-width compact / full-range neighbours in both orders); a third fault "
+         "set per symbol blots data codewords to all-0 / all-1; Gen_AztecCore lays the mode message of every size x data-codeword count (all "
+         "counts in the thorough tier) round the mode ring and detector.Detect must announce (compact, layers, count).",
     design_ref="DESIGN.md section 6 C11",
     note="Trusted: TLC; Aztec.tla as embodiment of ISO/IEC 24778 (self-checked); harness projection. Not generated: FLG(n)/ECI. Known finding "
          "C11-scale2-centre-estimate is open.",
@@ -221,7 +224,11 @@ CHECKS["C18"] = dict(
          "private writer / reader instances of all symbologies under the race detector (GOMAXPROCS 2/4/16, randomised start barriers) with "
          "verif hooks reporting every access to the generator cache, the grid sampler, GF table construction and the 1-D scratch buffers; "
          "Trace_Conc accepts a run only if every cache / scratch object was touched by one goroutine, package state saw no write, every "
-         "result digest equals the one obtained alone, and the race detector reported nothing.",
+         "result digest equals the one obtained alone, and the race detector reported nothing. "
+         "Jobs include ECI-designated QR symbols (UTF-16BE, unregistered spellings), reference Aztec symbols of all four codeword sizes, EAN/UPC "
+         "add-on symbols and directly decoded DAMAGED QR / Data Matrix symbols; jobs marked first are run by every goroutine at the start of each "
+         "fresh process (lazily built state is first used by all of them at once); even rounds run without hooks and without any driver lock (a "
+         "mutex in the hook would order the goroutines for the race detector), odd rounds give the ownership observations.",
     design_ref="DESIGN.md section 6 C18",
     note="Trusted: TLC, the Go race detector, Conc.tla. Exhaustive over schedules only on the model; the real code is observed on the "
          "schedules the Go runtime produced (sampled). Hooks cover the known shared state; other shared state introduced by a change is "
